@@ -11,6 +11,7 @@
 4. Equivalence traffic of real searches (symmetry / inferral packs) is judged the same way.
 """
 import json
+import random
 
 from .. import tlc
 from ..common import Run
@@ -98,6 +99,36 @@ def model_histories(run: Run, tier, seed):
     return hists, cover
 
 
+def order_histories(tier, seed):
+    """Order-sensitive histories the transition cover cannot contain (the abstract state forgets insertion order):
+    every sequence of <= 5 operations over 3 labels (a seeded sample of them in the quick tier), and every ordering of
+    4 distinct one-way edges over 4 labels, each followed by a cycle detection."""
+    import itertools
+
+    rnd = random.Random(seed + 61)
+    ops3 = [{"op": "one", "a": a, "b": b} for a in range(3) for b in range(3) if a != b] + \
+           [{"op": "two", "a": a, "b": b} for a in range(3) for b in range(3) if a < b] + \
+           [{"op": "mark", "a": a, "b": 0} for a in range(3)] + [{"op": "cc", "a": 0, "b": 0}]
+    out = []
+    if tier == "thorough":
+        for h in itertools.product(ops3, repeat=5):
+            out.append((3, list(h)))
+    else:
+        for _ in range(9000):
+            out.append((3, [rnd.choice(ops3) for _ in range(5)] + [{"op": "cc", "a": 0, "b": 0}]))
+    edges3 = [o for o in ops3 if o["op"] == "one"]
+    for k in (4, 5, 6):
+        for perm in itertools.permutations(edges3, k):
+            out.append((3, list(perm) + [{"op": "cc", "a": 0, "b": 0}]))
+    edges4 = [{"op": "one", "a": a, "b": b} for a in range(4) for b in range(4) if a != b]
+    perms4 = list(itertools.permutations(edges4, 4))
+    if tier == "quick":
+        perms4 = rnd.sample(perms4, 2500)
+    for perm in perms4:
+        out.append((4, list(perm) + [{"op": "cc", "a": 0, "b": 0}]))
+    return out
+
+
 def judge(run: Run, traces, label):
     v = tlc.validate_traces(run.wd, "Trace_EquivDB", traces, jvms=12, tag=label, timeout=2400)
     run.add_verdicts(v, "Trace_EquivDB " + label)
@@ -120,6 +151,7 @@ def nontrivial(events) -> bool:
 def run(tier: str, seed: int) -> int:
     run_ = Run("C06", tier, seed)
     hists, cover = model_histories(run_, tier, seed)
+    hists += order_histories(tier, seed)
     # replayed and judged in chunks: the traces (an all-pairs matrix after every step) are large
     CH = 15000
     total = 0
